@@ -50,5 +50,6 @@ public class Wide {
         return enc(q);
     }
     public static Value WISqrt(final Value a) { return enc(dec(a).sqrt()); }
+    public static Value WFromInt(final Value i) { return enc(BigInteger.valueOf(((IntValue) i).val)); }
     public static Value WGcd(final Value a, final Value b) { return enc(dec(a).gcd(dec(b))); }
 }
